@@ -33,6 +33,10 @@ CHECKS = {
    text="PARTIAL: the location calculus every diagnostic position is built with. Location::concat/left_main_concat/stream give the exact span for two ranges, a well-formed result for well-formed operands in source order, never invent a line, and are Unknown only if both operands are; accessors and Locational defaults return the stored coordinates; Token::loc places a token on its own line between its columns. Kani loop-free over all u32 coordinates (complete).",
    note="Not carried: that lowering attaches the right node's location to each error, that callers pass operands in source order, format_context/format_code_and_pointer rendering (string formatting over StyledStrings), and column bookkeeping in the lexer (C08).",
    technique=TECH_K),
+ "C14": dict(engine="verus", category="proof",
+   text="PARTIAL: the bookkeeping primitives every emitted code object is built with (codegen.rs, real text, Verus). stack_inc/stack_inc_n/stack_dec/stack_dec_n keep stack_len <= stacksize (the declared stack size never falls behind the tracked depth), never overflow or underflow, and change nothing else; write_instr/write_bytes/write_arg/extend_arg/edit_code keep lasti == code.len(); an argument above 255 is encoded as EXTENDED_ARG prefixes that CPython decodes to exactly that argument, inserted in front of its opcode with every other byte untouched, and the returned shift equals the bytes inserted; fill_jump writes the 16-bit jump argument (byte offset up to 3.9, instruction offset from 3.10) into the reserved EXTENDED_ARG/jump pair and nothing else; push_lnotab appends (sdelta, ldelta) pairs whose sums equal the code emitted and the lines advanced since the last entry, keeps the table even-length with ldelta <= 127, and terminates.",
+   note="Preconditions are the callers' obligations and are NOT carried: that each emit_* reports the interpreter's true stack effect (the larger half of 'stack size >= reachable depth'), that jump targets handed to fill_jump are instruction boundaries within 16 bits, that jump arguments above 255 are never relocated by write_arg (they are written as 0 behind a reserved EXTENDED_ARG and patched). Constant/name/local index ranges are not carried. Observed, not checked: for Python 3.10+ the generator still emits the 3.9 lnotab format. Assumed: std contracts of Vec::insert/get/get_mut/last/extend_from_slice, to_be_bytes; is_jump_op is an uninterpreted function of the opcode byte here (checked against CPython in C16).",
+   technique=TECH_V + "; &mut-returning accessors specified with final(..); loop invariants and decreases measures spliced by loop ordinal"),
  "C15": dict(engine="verus+kani", category="proof",
    text="PARTIAL: (reader, Verus, unbounded input length) Deserializer::take/take_byte/consume/deserialize_u32/deserialize_long/deserialize_bytes/deserialize_const never panic on any byte vector (every remove/drain/index is guarded; an allocation is never sized by an unchecked length field), return Err on short input, consume exactly what they decode, never grow the input, and terminate (recursion and loops of the tuple arms proved with a decreases measure). (writer) str_into_bytes and raw_string_into_bytes equal CPython's marshal encoding for every string below 4 GiB (Verus); ValueObj::into_bytes on Int, Nat (incl. the long format from 2**31), Float (bit-exact incl. -0.0, inf, NaN), Bool, None equals the marshal format, the type-byte table inverts, and reader(writer(x) ++ rest) == x on all those scalars (Kani, loop-free / bounded only by the 5 digits of a u64).",
    note="Assumed: std contracts of Vec::drain/remove/insert/with_capacity, from_le_bytes/to_le_bytes, String::from_utf8; CodeObj::from_bytes as a callee of the Code arm (consumes >= 1 byte on success, never grows the input); the string and tuple arms of the reader are checked for totality only (their values go through interning caches); the Nat round trip is by transitivity through the marshal long format (writer == format, reader(format) == value). Bounded stand-in, not counted: vec_to_bytes<2|4|8> on vectors up to 10 bytes, raw_string_into_bytes on 2 bytes (Kani). Not carried: CodeObj::into_bytes/from_bytes field sequence, strs_into_bytes/tuple_into_bytes loops, CPython's unmarshaller itself (used as the oracle in replay only).",
